@@ -269,6 +269,8 @@ class RF:
     # -------------------------------------------------------------- queries
     def equals(s, o):
         o = lift(o)
+        if s.num == o.num and s.den == o.den:
+            return True                   # identical normal forms: no cross-multiplication
         a, ea = p_mul_raw(s.num, o.den)
         b, eb = p_mul_raw(o.num, s.den)
         if ea or eb:
